@@ -40,6 +40,9 @@ def draw_spec(ch, prefix="gen"):
         # a second parameter on the infection transition whose code name CONTAINS the first one's ("foi" / "foi_imp"),
         # listed before or after it in the cell
         "double_link": ["none", "short_first", "long_first"][ch.choose(f"{prefix}.double_link", 3)],
+        # nobody is treated at the start: a program with a saturation that reaches treated people meets an empty
+        # target compartment at the first time points
+        "empty_treated": ch.flip(f"{prefix}.empty_treated", 0.4),
     }
     if spec["npops"] == 1:
         spec["transfer"] = False
@@ -216,6 +219,8 @@ def build_project(spec, name="generated"):
         "b_rate": 30.0, "beta": 0.3, "foi": 0.05, "p_triage": 0.4, "prop_tx": 0.7, "prop_jvac": 0.15, "dur_tx": 2.0,
         "p_vac": 0.1, "dur_vac": spec["timed_duration"], "p_break": 0.05, "mort": 0.02, "mort_inf": 3.0, "foi_imp": 0.004,
     }
+    if spec.get("empty_treated"):
+        values["s3"] = 0.0
     trends = {"beta": -0.3, "p_triage": 0.5, "b_rate": 0.2, "prop_tx": 0.2, "foi": -0.2, "mort_inf": -0.3}
     k = 0
     for name_, tdve in data.tdve.items():
@@ -282,9 +287,12 @@ def build_project(spec, name="generated"):
                 prog.spend_data.insert(float(tvec[2]), 3000.0 * sc_)
             prog.unit_cost = at.TimeSeries(float(tvec[0]), 20.0 * (i + 1), units=("$/person/year" if i % 2 else "$/person (one-off)"))
             if i == 1:
-                prog.capacity_constraint = at.TimeSeries(float(tvec[0]), 500.0, units="people/year")
+                # binding: spending / unit cost would reach 100 * scale people per year
+                prog.capacity_constraint = at.TimeSeries(float(tvec[0]), 60.0 * sc_, units="people/year")
             if i == 2:
                 prog.saturation = at.TimeSeries(float(tvec[0]), 0.9, units=prog.saturation.units)
+                if spec.get("empty_treated"):
+                    prog.target_comps = ["s3"]
         prog_names = list(pset.programs.keys())
         for j, par in enumerate(targetable[: 1 + spec["nprogs"]]):
             for pop in pop_names:
